@@ -43,10 +43,18 @@ class SwitchWalker(Walker):
         if f.attr == 'simulate':
             stmt = frame.get('stmt')
             need = None
-            if isinstance(stmt, ast.Assign) and stmt.value is call:
-                need = isinstance(stmt.targets[0], (ast.Tuple, ast.List))
-            elif isinstance(stmt, ast.Return):
+            if isinstance(stmt, ast.Return):
                 need = 'passthrough'
+            elif isinstance(stmt, ast.Assign) and stmt.value is call and \
+                    isinstance(stmt.targets[0], ast.Name) and all(
+                        isinstance(getattr(x, '_parent', None), ast.Return)
+                        for x in ast.walk(frame['fn'])
+                        if isinstance(x, ast.Name)
+                        and x.id == stmt.targets[0].id
+                        and isinstance(x.ctx, ast.Load)):
+                need = 'passthrough'    # bound to a name that is only returned
+            elif isinstance(stmt, ast.Assign) and stmt.value is call:
+                need = isinstance(stmt.targets[0], (ast.Tuple, ast.List))
             elif isinstance(stmt, ast.Assign):
                 need = False
             have = st.env.get(self.key)
